@@ -139,7 +139,7 @@ __CPROVER_ensures(!SPEC_ALG_KNOWN(alg) ==> __CPROVER_return_value == NULL)
 /* memory shape of the base64url helpers; their functional contracts are
  * proved in C11 (same functions, stronger clauses).  B64_MAXLEN: lengths
  * travel in int inside libjwt. */
-#define B64_MAXLEN 0x5ffffff0
+#define B64_MAXLEN 0x5ffffffd
 
 #define DECL_jwt_base64uri_decode(NAME, EXTRA) \
 void *NAME(const char *src, int *ret_len) \
@@ -172,7 +172,9 @@ extern size_t g_last_strlen;	/* ghost: result of the last strlen() (stubs/libc.c
 #define C11_DEC_CLAUSES \
 /* length 1 modulo 4 is rejected; the result is never longer than 3 bytes per 4 characters */ \
 __CPROVER_ensures(__CPROVER_return_value != NULL ==> (g_last_strlen % 4 != 1 && \
-	(size_t)*ret_len <= 3 * ((g_last_strlen + 3) / 4)))
+	(size_t)*ret_len <= 3 * ((g_last_strlen + 3) / 4))) \
+/* a text too long for the int lengths used inside is rejected -- never decoded as the prefix its wrapped length names */ \
+__CPROVER_ensures(__CPROVER_return_value != NULL ==> g_last_strlen <= 0x7fffffff)
 #define DECL_C11_jwt_base64uri_decode(NAME) \
 void *NAME(const char *src, int *ret_len) \
 __CPROVER_requires(src == NULL || __CPROVER_r_ok(src, 1)) \
